@@ -4,6 +4,9 @@ go 1.25.6
 
 require github.com/bufbuild/protocompile v0.0.0
 
-require google.golang.org/protobuf v1.36.11 // indirect
+require (
+	golang.org/x/sync v0.20.0 // indirect
+	google.golang.org/protobuf v1.36.11
+)
 
 replace github.com/bufbuild/protocompile => /repo
